@@ -233,7 +233,7 @@ RULES = [("probe", rule_probe), ("store", rule_store), ("writers", rule_writers)
 RULES += engine.movegen_premises(["check-mirror"])
 # a forced mate is found only if the search is the full-width search the property describes: no pruning beyond
 # alpha-beta / null-window re-search, the terminal scores, and a completed root search recording its result (C11 rules)
-RULES += engine.premise_rules("c11", ["exits", "root-result", "windows", "cut", "terminal", "ply-counter"])
+RULES += engine.premise_rules("c11", ["exits", "root-result", "windows", "cut", "terminal", "ply-counter", "permutation"])
 # ... and the move found is announced only if the PV walk that runs before the announcement does not trip its own assertion
 RULES += engine.premise_rules("c14", ["pv-legal"])
 
